@@ -930,6 +930,8 @@ def value_getattr(interp, obj, name, node):
                 else:
                     raise Unsupported('set.add symbolic', n)
             return Builtin('set.add', add)
+        if name == 'clear' and isinstance(obj, set):
+            return Builtin('set.clear', lambda i, a, k, n: obj.clear())
         raise Unsupported(f'set method {name}', node)
     if isinstance(obj, tuple):
         if name == 'index' or name == 'count':
